@@ -38,7 +38,8 @@ META = dict(
     stubs=['pri_dao (no history)', 'data_store_mgr', 'workflow_db_mgr',
            'broadcast_mgr'],
     assumptions=[],
-    outside=['flows other than the active one', 'xtrigger prerequisites',
+    outside=['flows other than the active one', 'setting xtrigger '
+             'prerequisites (--pre=xtrigger)',
              'command validation layer (command_validation.py)'],
 )
 
@@ -61,7 +62,7 @@ def _pool():
     return pool
 
 
-def _set_outputs(oi, st, x_done, in_pool):
+def _set_outputs(oi, st, x_done, in_pool, xt=False):
     pool = _pool()
     a = fx.itask(CFG, 'a', 2)
     a.state.is_runahead = False
@@ -82,6 +83,9 @@ def _set_outputs(oi, st, x_done, in_pool):
             from cylc.flow.task_job_mgr import TaskJobManager
             a.submit_num = 1
             TaskJobManager._set_retry_timers(a)
+    if xt and in_pool:
+        # the task also waits on an xtrigger (clock / retry) not yet satisfied
+        a.state.xtriggers['clock'] = False
     before = {m for m in ALLOUT if in_pool and
               a.state.outputs.is_message_complete(m)}
     status0 = ST[st] if in_pool else 'waiting'
@@ -107,6 +111,13 @@ def _set_outputs(oi, st, x_done, in_pool):
             return False          # never moved into submitted / running
         if s == 'preparing' and status0 != 'preparing':
             return False
+        if xt and s == 'waiting':
+            # still waiting: setting outputs must not make the task itself
+            # ready to run (its own xtrigger is still outstanding)
+            if a.state.xtriggers.get('clock') is not False:
+                return False
+            if a.is_ready_to_run():
+                return False
     newly = want - before
     kids = set()
     for m in newly:
@@ -137,7 +148,8 @@ def _set_outputs(oi, st, x_done, in_pool):
     return True
 
 
-def set_outputs(oi: int, st: int, x_done: bool, in_pool: bool) -> bool:
+def set_outputs(oi: int, st: int, x_done: bool, in_pool: bool,
+                xt: bool) -> bool:
     """
     pre: 0 <= oi < len(OUTSEL) and 0 <= st < 8
     pre: st != 7 or not in_pool
@@ -145,9 +157,9 @@ def set_outputs(oi: int, st: int, x_done: bool, in_pool: bool) -> bool:
     """
     # (a succeeded task of this definition is complete, hence never pooled)
     oi, st = fork_int(oi, 0, len(OUTSEL) - 1), fork_int(st, 0, 7)
-    x_done, in_pool = fork_bool(x_done), fork_bool(in_pool)
+    x_done, in_pool, xt = fork_bool(x_done), fork_bool(in_pool), fork_bool(xt)
     with concrete():
-        return _set_outputs(oi, st, x_done, in_pool)
+        return _set_outputs(oi, st, x_done, in_pool, xt)
 
 
 PRESEL = [['2/a:x'], ['1/a'], ['2/c'], ['all'], ['1/a', '2/a:x'],
